@@ -2,14 +2,15 @@
 """re-run the registered checks against every kept seeded change (seeded/<name>/patch.diff) and refresh meta.json.
 usage: reseed.py [name ...]   (default: all).  The patch is applied to /repo and undone straight afterwards."""
 import json, os, subprocess, sys, time
-V = '/verif'
+V = os.path.dirname(os.path.dirname(os.path.abspath(__file__)))
+REPO = os.environ.get('VERIF_DEV_REPO') or REPO
 names = sys.argv[1:] or sorted(os.listdir(os.path.join(V, 'seeded')))
 for name in names:
     d = os.path.join(V, 'seeded', name)
     meta = json.load(open(os.path.join(d, 'meta.json')))
     checks = list(meta.get('checks_run', {}).keys()) or [meta['property']]
-    assert subprocess.run(['git', '-C', '/repo', 'status', '--short', '--untracked-files=no'], capture_output=True, text=True).stdout.strip() == '', '/repo not clean'
-    r = subprocess.run(['git', '-C', '/repo', 'apply', os.path.join(d, 'patch.diff')])
+    assert subprocess.run(['git', '-C', REPO, 'status', '--short', '--untracked-files=no'], capture_output=True, text=True).stdout.strip() == '', '/repo not clean'
+    r = subprocess.run(['git', '-C', REPO, 'apply', os.path.join(d, 'patch.diff')])
     results = {}
     try:
         if r.returncode != 0:
@@ -21,7 +22,7 @@ for name in names:
                 viol = [l for l in p.stdout.splitlines() if l.startswith('VIOLATION') or l.startswith('  ')]
                 results[c] = {'exit': p.returncode, 'violations': viol[:8], 'wall_s': round(time.time() - t0, 1)}
     finally:
-        subprocess.run(['git', '-C', '/repo', 'checkout', '--', '.'])
+        subprocess.run(['git', '-C', REPO, 'checkout', '--', '.'])
     meta['checks_run'] = results
     meta['detected_by'] = [c for c, r in results.items() if isinstance(r, dict) and r.get('exit') == 1]
     json.dump(meta, open(os.path.join(d, 'meta.json'), 'w'), indent=1)
